@@ -75,3 +75,11 @@ class Resolver:
 
 
 TARGETS = {"codebasin.platform:Platform.find_include_file": Resolver()}
+
+
+# ---- system level: attribution across files (quote/angle/computed includes, guards,
+# #pragma once, -I order, -include); real finder.find vs the reference preprocessor
+from native.systarget import SysTarget  # noqa: E402
+
+TARGETS["codebasin.preprocessor:IncludeNode.evaluate_for_platform"] = SysTarget(
+    "includes", ("computed", "forced"), quick_n=400, thorough_n=6000)
